@@ -808,6 +808,24 @@ _IN_PROGRESS = object()
 def _canonicalise(tree: ast.Module) -> None:
     """Semantics-preserving normal form applied to every parsed module, so that the rules need not know both spellings:
        `tmp = E; return tmp` (tmp used nowhere else in the function)  ->  `return E`."""
+    # isinstance(x, (A, B))  ->  isinstance(x, A) or isinstance(x, B)
+    class _Iso(ast.NodeTransformer):
+        def visit_Call(self, node: ast.Call):
+            self.generic_visit(node)
+            if (isinstance(node.func, ast.Name) and node.func.id == "isinstance" and len(node.args) == 2 and not node.keywords
+                    and isinstance(node.args[1], ast.Tuple) and len(node.args[1].elts) >= 2 and isinstance(node.args[0], (ast.Name, ast.Attribute))):
+                vals = []
+                for e in node.args[1].elts:
+                    c = ast.Call(func=ast.Name(id="isinstance", ctx=ast.Load()), args=[node.args[0], e], keywords=[])
+                    ast.copy_location(c, node)
+                    ast.fix_missing_locations(c)
+                    vals.append(c)
+                b = ast.BoolOp(op=ast.Or(), values=vals)
+                ast.copy_location(b, node)
+                return b
+            return node
+
+    _Iso().visit(tree)
     for fn in [n for n in ast.walk(tree) if isinstance(n, (ast.FunctionDef, ast.AsyncFunctionDef))]:
         counts: Dict[str, int] = {}
         for n in ast.walk(fn):
